@@ -332,3 +332,57 @@ func verifC06SkipAfterFailure(generic bool) {
 
 func verifH_C06_SkipAfterFailure()   { verifC06SkipAfterFailure(false) }
 func verifH_C06_SkipAfterFailureOf() { verifC06SkipAfterFailure(true) }
+
+// The TTL that travels through Failover ends up as the expiry of the entry in a REAL backend, also
+// when that backend is configured with UnlimitedTTL: expiry = store instant + min non-zero TTL of
+// caller and builder (the backend default, or no expiry under UnlimitedTTL, if none was given).
+func verifH_C06_RealBackend() {
+	clk := verifInstallClock(verifT0, verifT1, true)
+	now := clk.last
+	unlimited := verifBool("backendUnlimitedTTL")
+	const cfgTTL = int64(time.Hour)
+	bc := Config{ExpirationJitter: -1, TimeToLive: time.Duration(cfgTTL)}
+	if unlimited {
+		bc.TimeToLive = UnlimitedTTL
+	}
+	f := NewFailover(FailoverConfig{BackendConfig: bc, FailedUpdateTTL: -1}.Use)
+	ctx := context.Background()
+	ttlC, ttlB := int64(0), int64(0)
+	if verifBool("callerHasTTL") {
+		ttlC = verifInt64("ttlCaller")
+		verifAssume(ttlC != 0 && ttlC > -(int64(1)<<50) && ttlC < int64(1)<<50)
+		ctx = WithTTL(ctx, time.Duration(ttlC), false)
+	}
+	lowers := verifBool("builderLowers")
+	if lowers {
+		ttlB = verifInt64("ttlBuilder")
+		verifAssume(ttlB > -(int64(1)<<50) && ttlB < int64(1)<<50)
+	}
+	v, err := f.Get(ctx, []byte("k"), func(c context.Context) (interface{}, error) {
+		if lowers {
+			WithTTL(c, time.Duration(ttlB), true)
+		}
+		return "built", nil
+	})
+	verifAssert("get succeeds", err == nil && v == "built")
+	want := ttlC
+	if lowers && ttlC != 0 { // the builder can only lower a TTL holder the caller provided
+		want = verifRefMinNonZero(want, ttlB)
+	}
+	stored, e, never := false, int64(0), false
+	_, _ = f.backend.(*ShardedMap).Walk(func(en Entry) error {
+		stored, e = true, en.ExpireAt().UnixNano()
+		never = e == 0 // an entry without expiry reports the Unix epoch
+		return nil
+	})
+	verifReach("real backend: built value stored")
+	verifAssert("built value is stored in the backend", stored)
+	switch {
+	case want != 0:
+		verifAssert("entry expires at store instant + the TTL carried by the context", !never && e == now+want)
+	case unlimited:
+		verifAssert("without any TTL an UnlimitedTTL backend stores no expiry", never)
+	default:
+		verifAssert("without a context TTL the backend default applies", !never && e == now+cfgTTL)
+	}
+}
